@@ -1,6 +1,6 @@
 (* C12: hit points (fixed point) and AI-script tags are exact on their whole domain. *)
 From Coq Require Import String NArith ZArith List Bool Lia ZifyN ZifyBool.
-From RC Require Import lib.Result lib.Bytes lib.Utf8 model.Scalars gen.GenScalars proofs.Layout_proofs proofs.Utf8_proofs.
+From RC Require Import lib.Result lib.Bytes lib.Utf8 model.Scalars gen.GenScalars proofs.Layout_proofs proofs.Utf8_proofs proofs.Utf8_inverse.
 Import ListNotations.
 Local Open Scope N_scope.
 Ltac Zify.zify_post_hook ::= Z.div_mod_to_equations.
@@ -101,3 +101,22 @@ Example ai_examples :
   ai_decode (le_decode [74; 89; 68; 103]) = Ok (AiKnown 0) /\
   ai_decode (le_decode [255; 65; 66; 67]) = Raise UnicodeError.
 Proof. repeat split; vm_compute; reflexivity. Qed.
+
+(* rich -> number -> rich: the number a script is written as decodes again, to a script of the same name *)
+Theorem ai_rich_to_number_and_back a n :
+  ai_encode a = Ok n -> exists a', ai_decode n = Ok a' /\ ai_name_of a' = ai_name_of a.
+Proof.
+  unfold ai_encode. intros H. inv_bind H as s Hs Hk. inv_bind Hk as bs Hbs Hk2.
+  destruct (Nat.eqb (length bs) 4) eqn:El; [|discriminate]. inversion Hk2; subst n. clear Hk2.
+  apply PeanoNat.Nat.eqb_eq in El. pose proof (Utf8_inverse.utf8_encode_bytes _ _ Hbs) as Hb.
+  assert (bytes_ok bs) as Hok by exact Hb.
+  pose proof (le_decode_bound bs Hok) as Hlt. rewrite El in Hlt.
+  unfold ai_decode. assert ((le_decode bs <? 2 ^ 32) = true) as -> by (apply N.ltb_lt; exact Hlt).
+  assert (le_encode 4 (le_decode bs) = bs) as Hrt by (rewrite <- El; apply le_encode_decode; exact Hok).
+  cbv zeta. rewrite Hrt.
+  rewrite (Utf8_inverse.utf8_encode_decode _ _ Hbs). cbn [bind].
+  destruct (index_of bs gen_ai_tags) as [i|] eqn:Ei.
+  - exists (AiKnown i). split; [reflexivity|]. unfold ai_name_of at 1. rewrite (index_of_nth _ _ _ Ei).
+    rewrite (Utf8_inverse.utf8_encode_decode _ _ Hbs). symmetry. exact Hs.
+  - exists (AiUnknown s). split; [reflexivity|]. symmetry. exact Hs.
+Qed.
